@@ -2,7 +2,7 @@
    tables).  Directives: ExtrOcamlBasic and ExtrOcamlString only. *)
 From Coq Require Import ZArith List String.
 From Coq Require Extraction ExtrOcamlBasic ExtrOcamlString.
-From Gigue Require Import Types Bits Enc Disasm GenTables Builder LogParse Samplers Generator Records.
+From Gigue Require Import Types Bits Enc Disasm GenTables Builder LogParse Samplers Generator Records Machine ImageSem.
 
 Extraction Blacklist String List.
 
@@ -22,7 +22,7 @@ Separate Extraction
   LogParse.parse_dump LogParse.parse_core_log LogParse.rocket_extract LogParse.cva6_extract
   LogParse.rocket_match LogParse.cva6_match LogParse.py_int
   Records.generation_data Records.methods_info Records.pics_info Records.id_draws
-  Generator.run_gen Generator.make_config Generator.m_total
+  Generator.run_gen Generator.make_config Generator.m_total ImageSem.cfg_ok
   Samplers.trunc_norm Samplers.generate_poisson Samplers.generate_ztp Samplers.body_size_of Samplers.call_nb_of
   Samplers.kind_is_pic Samplers.sign_of
   GenTables.t_runner_table_base GenTables.t_runner_table_tramp GenTables.t_runner_table_rimiss
